@@ -33,13 +33,9 @@ theorem isWs_eq : Filters.isWs = FiltersSpec.isWs := rfl
 
 /-! ### the digit loop -/
 
-theorem loop_dig {d : UInt8} (hd : IsDig d) (t : Bytes) (s : A85St) :
-    a85Loop (d :: t) s =
-      match decodeDigit d s with
-      | .ok s => a85Loop t s
-      | .err k => .err k
-      | .panic m => .panic m := by
-  rw [a85Loop]; simp [dig_ne_z hd, dig_range hd]
+theorem loop_dig {d : UInt8} (hd : IsDig d) (t : Bytes) (s s' : A85St) (h : decodeDigit d s = .ok s') :
+    a85Loop (d :: t) s = a85Loop t s' := by
+  rw [a85Loop]; simp [dig_ne_z hd, dig_range hd, h]
 
 theorem decodeDigit_lt4 (d : UInt8) (k ch : Nat) (res : Bytes) (hk : k < 4)
     (h : ch + (d.toNat - 33) * a85Table k < 2 ^ 32) :
@@ -70,18 +66,118 @@ theorem loop_group (x0 x1 x2 x3 x4 : UInt8) (t res : Bytes)
       a85Loop t ⟨0, 0, UInt8.ofNat (c % 256) :: UInt8.ofNat (c / 256 % 256) :: UInt8.ofNat (c / 65536 % 256)
         :: UInt8.ofNat (c / 16777216) :: res⟩ := by
   simp only [dv] at hc
-  rw [loop_dig h0, decodeDigit_lt4 _ _ _ _ (by omega) (by simp only [a85Table]; omega)]
-  simp only
-  rw [loop_dig h1, decodeDigit_lt4 _ _ _ _ (by omega) (by simp only [a85Table]; omega)]
-  simp only
-  rw [loop_dig h2, decodeDigit_lt4 _ _ _ _ (by omega) (by simp only [a85Table]; omega)]
-  simp only
-  rw [loop_dig h3, decodeDigit_lt4 _ _ _ _ (by omega) (by simp only [a85Table]; omega)]
-  simp only
-  rw [loop_dig h4, decodeDigit_4 _ _ _ (by simp only [a85Table]; omega)]
+  rw [loop_dig h0 _ _ _ (decodeDigit_lt4 _ _ _ _ (by omega) (by simp only [a85Table]; omega))]
+  rw [loop_dig h1 _ _ _ (decodeDigit_lt4 _ _ _ _ (by omega) (by simp only [a85Table]; omega))]
+  rw [loop_dig h2 _ _ _ (decodeDigit_lt4 _ _ _ _ (by omega) (by simp only [a85Table]; omega))]
+  rw [loop_dig h3 _ _ _ (decodeDigit_lt4 _ _ _ _ (by omega) (by simp only [a85Table]; omega))]
+  rw [loop_dig h4 _ _ _ (decodeDigit_4 _ _ _ (by simp only [a85Table]; omega))]
   simp only [a85Table]
   have : 0 + (x0.toNat - 33) * (85 * 85 * 85 * 85) + (x1.toNat - 33) * (85 * 85 * 85) + (x2.toNat - 33) * (85 * 85)
       + (x3.toNat - 33) * 85 + (x4.toNat - 33) = c := by omega
   rw [this]
+
+/-! ### the pad loop and the tail of `ascii85::decode` -/
+
+theorem dv_u : (0x75 : UInt8).toNat - 33 = 84 := by decide
+
+theorem pad_0 (f ch : Nat) (res : Bytes) (rm : Nat) :
+    a85Pad f ⟨0, ch, res⟩ rm = .ok (⟨0, ch, res⟩, rm) := by
+  cases f <;> simp [a85Pad]
+
+theorem pad_lt4 (f k ch : Nat) (res : Bytes) (rm : Nat) (hk0 : 0 < k) (hk : k < 4)
+    (h : ch + 84 * a85Table k < 2 ^ 32) :
+    a85Pad (f + 1) ⟨k, ch, res⟩ rm = a85Pad f ⟨k + 1, ch + 84 * a85Table k, res⟩ (rm + 1) := by
+  have hk' : (k == 0) = false := by simp; omega
+  rw [a85Pad, decodeDigit_lt4 _ _ _ _ hk (by rw [dv_u]; exact h)]
+  simp [hk', dv_u]
+
+theorem pad_4 (f ch : Nat) (res : Bytes) (rm : Nat) (h : ch + 84 < 2 ^ 32) :
+    a85Pad (f + 1) ⟨4, ch, res⟩ rm =
+      a85Pad f ⟨0, 0, UInt8.ofNat ((ch + 84) % 256) :: UInt8.ofNat ((ch + 84) / 256 % 256)
+        :: UInt8.ofNat ((ch + 84) / 65536 % 256) :: UInt8.ofNat ((ch + 84) / 16777216) :: res⟩ (rm + 1) := by
+  rw [a85Pad, decodeDigit_4 _ _ _ (by rw [dv_u]; exact h)]
+  simp [dv_u]
+
+/-- what `a85Crate` does once the trimming is over -/
+def run (s : Bytes) (st : A85St) : Res Bytes :=
+  match a85Loop s st with
+  | .err k => .err k
+  | .panic m => .panic m
+  | .ok st =>
+    match a85Pad 5 st 0 with
+    | .err k => .err k
+    | .panic m => .panic m
+    | .ok (st, rm) =>
+      if st.result.length < rm then .panic "ascii85: drain range"
+      else .ok (st.result.drop rm).reverse
+
+theorem run_nil (res : Bytes) : run [] ⟨0, 0, res⟩ = .ok res.reverse := by
+  simp [run, a85Loop, pad_0]
+
+theorem run_group (x0 x1 x2 x3 x4 : UInt8) (t res : Bytes)
+    (h0 : IsDig x0) (h1 : IsDig x1) (h2 : IsDig x2) (h3 : IsDig x3) (h4 : IsDig x4) (c : Nat)
+    (hc : c = dv x0 * 52200625 + dv x1 * 614125 + dv x2 * 7225 + dv x3 * 85 + dv x4)
+    (hlt : c < 2 ^ 32) :
+    run (x0 :: x1 :: x2 :: x3 :: x4 :: t) ⟨0, 0, res⟩ =
+      run t ⟨0, 0, UInt8.ofNat (c % 256) :: UInt8.ofNat (c / 256 % 256) :: UInt8.ofNat (c / 65536 % 256)
+        :: UInt8.ofNat (c / 16777216) :: res⟩ := by
+  simp only [run]; rw [loop_group x0 x1 x2 x3 x4 t res h0 h1 h2 h3 h4 c hc hlt]
+
+theorem run_part1 (x0 x1 : UInt8) (res : Bytes) (h0 : IsDig x0) (h1 : IsDig x1) (c : Nat)
+    (hc : c = dv x0 * 52200625 + dv x1 * 614125 + 84 * 7225 + 84 * 85 + 84) (hlt : c < 2 ^ 32) :
+    run [x0, x1] ⟨0, 0, res⟩ = .ok (res.reverse ++ [UInt8.ofNat (c / 16777216)]) := by
+  simp only [dv] at hc
+  simp only [run]
+  rw [loop_dig h0 _ _ _ (decodeDigit_lt4 _ _ _ _ (by omega) (by simp only [a85Table]; omega))]
+  rw [loop_dig h1 _ _ _ (decodeDigit_lt4 _ _ _ _ (by omega) (by simp only [a85Table]; omega))]
+  rw [a85Loop]
+  simp only
+  rw [pad_lt4 _ _ _ _ _ (by omega) (by omega) (by simp only [a85Table]; omega)]
+  rw [pad_lt4 _ _ _ _ _ (by omega) (by omega) (by simp only [a85Table]; omega)]
+  rw [pad_4 _ _ _ _ (by simp only [a85Table]; omega)]
+  rw [pad_0]
+  simp only [a85Table]
+  have : 0 + (x0.toNat - 33) * (85 * 85 * 85 * 85) + (x1.toNat - 33) * (85 * 85 * 85) + 84 * (85 * 85)
+      + 84 * 85 + 84 = c := by omega
+  rw [this]; simp
+
+theorem run_part2 (x0 x1 x2 : UInt8) (res : Bytes) (h0 : IsDig x0) (h1 : IsDig x1) (h2 : IsDig x2) (c : Nat)
+    (hc : c = dv x0 * 52200625 + dv x1 * 614125 + dv x2 * 7225 + 84 * 85 + 84) (hlt : c < 2 ^ 32) :
+    run [x0, x1, x2] ⟨0, 0, res⟩ =
+      .ok (res.reverse ++ [UInt8.ofNat (c / 16777216), UInt8.ofNat (c / 65536 % 256)]) := by
+  simp only [dv] at hc
+  simp only [run]
+  rw [loop_dig h0 _ _ _ (decodeDigit_lt4 _ _ _ _ (by omega) (by simp only [a85Table]; omega))]
+  rw [loop_dig h1 _ _ _ (decodeDigit_lt4 _ _ _ _ (by omega) (by simp only [a85Table]; omega))]
+  rw [loop_dig h2 _ _ _ (decodeDigit_lt4 _ _ _ _ (by omega) (by simp only [a85Table]; omega))]
+  rw [a85Loop]
+  simp only
+  rw [pad_lt4 _ _ _ _ _ (by omega) (by omega) (by simp only [a85Table]; omega)]
+  rw [pad_4 _ _ _ _ (by simp only [a85Table]; omega)]
+  rw [pad_0]
+  simp only [a85Table]
+  have : 0 + (x0.toNat - 33) * (85 * 85 * 85 * 85) + (x1.toNat - 33) * (85 * 85 * 85) + (x2.toNat - 33) * (85 * 85)
+      + 84 * 85 + 84 = c := by omega
+  rw [this]; simp
+
+theorem run_part3 (x0 x1 x2 x3 : UInt8) (res : Bytes) (h0 : IsDig x0) (h1 : IsDig x1) (h2 : IsDig x2)
+    (h3 : IsDig x3) (c : Nat)
+    (hc : c = dv x0 * 52200625 + dv x1 * 614125 + dv x2 * 7225 + dv x3 * 85 + 84) (hlt : c < 2 ^ 32) :
+    run [x0, x1, x2, x3] ⟨0, 0, res⟩ =
+      .ok (res.reverse ++ [UInt8.ofNat (c / 16777216), UInt8.ofNat (c / 65536 % 256), UInt8.ofNat (c / 256 % 256)]) := by
+  simp only [dv] at hc
+  simp only [run]
+  rw [loop_dig h0 _ _ _ (decodeDigit_lt4 _ _ _ _ (by omega) (by simp only [a85Table]; omega))]
+  rw [loop_dig h1 _ _ _ (decodeDigit_lt4 _ _ _ _ (by omega) (by simp only [a85Table]; omega))]
+  rw [loop_dig h2 _ _ _ (decodeDigit_lt4 _ _ _ _ (by omega) (by simp only [a85Table]; omega))]
+  rw [loop_dig h3 _ _ _ (decodeDigit_lt4 _ _ _ _ (by omega) (by simp only [a85Table]; omega))]
+  rw [a85Loop]
+  simp only
+  rw [pad_4 _ _ _ _ (by simp only [a85Table]; omega)]
+  rw [pad_0]
+  simp only [a85Table]
+  have : 0 + (x0.toNat - 33) * (85 * 85 * 85 * 85) + (x1.toNat - 33) * (85 * 85 * 85) + (x2.toNat - 33) * (85 * 85)
+      + (x3.toNat - 33) * 85 + 84 = c := by omega
+  rw [this]; simp
 
 end Parsley.C06
